@@ -18,3 +18,7 @@ SPEC = dc.spec(
     design_ref="§6 C34",
     rule=dc.RULE + "  C34: per history up to 3 first crash points (after a WAL fsync, inside the primary phase, end of run); the "
                    "recovery of each is traced and every prefix of it (<=80) is crashed again.")
+
+
+def run(ctx, replay):
+    return dc.run_check(SPEC, ctx, replay)
